@@ -18,7 +18,11 @@ DEFAULTS = {"none": ["None"], "bool": ["False", "True"], "int": ["0", "7"], "flo
 
 
 class Gen:
-    def __init__(self, rng, max_depth=4, feats=None, recursion=True, std=False):
+    def __init__(self, rng, max_depth=4, feats=None, recursion=True, std=False, pattern_overlap=False):
+        # pattern_overlap: a regular field may be named like the keys of a properties(pattern) field ("properties not mapped on
+        # regular fields" go to the pattern field: deserialization-side rule; the generated schema applies both, so the
+        # schema-side checks leave it off)
+        self.pattern_overlap = pattern_overlap
         self.std = std  # also draw standard-library converted types (UUID, date, ...)
         self.rng = rng
         self.max_depth = max_depth
@@ -292,6 +296,12 @@ class Gen:
             if len(normal) >= 2:
                 a, b = r.sample(normal, 2)
                 o.dep_req = {a.name: [b.name]}
+        if self.pattern_overlap and kind == "dataclass" and r.random() < 0.4:
+            pats = [f.pattern for f in o.fields if f.pattern is not None]
+            plain = [f for f in o.fields if not f.aggregate and f.alias is None and not f.initvar and not f.init_false]
+            if pats and plain:
+                f = r.choice(plain)
+                f.alias = r.choice(pats).lstrip("^") + f.name  # matches the pattern, but belongs to the regular field
         if kind == "dataclass" and len(o.fields) >= 2 and not o.tvars() and not any(f.initvar for f in o.fields) and r.random() < 0.12:
             o.inherit = r.randint(1, len(o.fields) - 1)  # leading fields declared in a base dataclass
         return o
